@@ -1226,6 +1226,211 @@ theorem chTail_panich (r : Reg) (ty v d hid : Nat) (pv : Option Nat) :
   cases pv <;> cases h1 : cfg.panicH <;> cases h2 : cfg.obs <;> simp [chTail, isPanichAt, h1, h2]
 
 end invoc
+/-! ### the structure of the dispatch loop -/
+
+section struct
+variable {R : Type} (I : RegImpl R) (cfg : Config) (rec : Frame → St R → Action → St R)
+
+theorem deliver_struct (hrec : RecOK I rec) (ty v root obs d : Nat) (s : St R) (claimed : List Reg) (r : Reg) :
+    ∃ tl pl, (deliver cfg rec ty v root obs d (s, claimed) r).1.c.trace = s.c.trace ++ tl ∧
+      (deliver cfg rec ty v root obs d (s, claimed) r).1.c.pending = s.c.pending ++ pl ∧
+      tl.filter (isHookAt d) = [] ∧
+      (((r.accepts v = false ∨ s.c.live root = false ∨ (r.once = true ∧ r.rid ∈ s.c.executed)) ∧
+          directEnters d tl = [] ∧ pl = []) ∨
+       (r.accepts v = true ∧ r.async = true ∧ directEnters d tl = [] ∧ pl = [⟨r, ty, v, root, obs, d⟩] ∧
+          (r.once = true → r.rid ∈ (deliver cfg rec ty v root obs d (s, claimed) r).1.c.executed)) ∨
+       (r.accepts v = true ∧ r.async = false ∧
+          directEnters d tl = [(r.rid, ty, v, if r.ctxAware then some root else none)] ∧
+          (∀ q ∈ pl, d + 1 ≤ q.depth) ∧
+          (r.once = true → r.rid ∈ (deliver cfg rec ty v root obs d (s, claimed) r).1.c.executed))) := by
+  obtain ⟨_, _, _, _, _, f6, _, f8⟩ := dFilt_fields d v r s
+  obtain ⟨_, _, g3, _, _, g6, _, g8⟩ := dClaim_fields r (dFilt d v r s)
+  have hfh : (filtEv d v r).filter (isHookAt d) = [] := filter_hook_plain (filtEv_plain d v r)
+  have hfd : directEnters d (filtEv d v r) = [] := directEnters_noenter (all_noenter_plain (filtEv_plain d v r))
+  have hex : r.once = true → r.rid ∈ (dClaim r (dFilt d v r s)).c.executed := by
+    intro h; rw [g3]; simp [h]
+  rcases deliver_cases cfg rec ty v root obs d s claimed r with ⟨hc, h⟩ | ⟨ha, _, _, ⟨hy, h⟩ | ⟨hy, h⟩⟩ <;> rw [h]
+  · exact ⟨filtEv d v r, [], f8, by simp [f6], hfh, Or.inl ⟨hc, hfd, rfl⟩⟩
+  · refine ⟨filtEv d v r, [⟨r, ty, v, root, obs, d⟩], ?_, ?_, hfh, Or.inr (Or.inl ⟨ha, hy, hfd, rfl, hex⟩)⟩
+    · show (dClaim r (dFilt d v r s)).c.trace = _
+      rw [g8, f8]
+    · show (dClaim r (dFilt d v r s)).c.pending ++ _ = _
+      rw [g6, f6]
+  · obtain ⟨body, hb, ht⟩ := callHandler_trace I cfg rec hrec r ty v root obs d false (dClaim r (dFilt d v r s))
+    obtain ⟨p, hp, hq⟩ := callHandler_pending I cfg rec hrec r ty v root obs d false (dClaim r (dFilt d v r s))
+    refine ⟨filtEv d v r ++ (enterEvs cfg r ty v root obs d false (dClaim r (dFilt d v r s)).c.nextObs ++ body ++
+      chTail cfg r ty v d (dClaim r (dFilt d v r s)).c.nextObs
+        (bodyResult cfg rec r ty v root obs d false (dClaim r (dFilt d v r s))).c.panicking), p, ?_, ?_, ?_,
+      Or.inr (Or.inr ⟨ha, hy, ?_, hq, fun ho => ?_⟩)⟩
+    · rw [hb, g8, f8, List.append_assoc]
+    · rw [hp, g6, f6]
+    · rw [List.filter_append, List.filter_append, List.filter_append, hfh, enterEvs_hook, filter_hook_deeper ht,
+        chTail_hook]
+      rfl
+    · rw [directEnters_append, directEnters_append, directEnters_append, hfd, enterEvs_direct,
+        directEnters_deeper ht, directEnters_noenter (chTail_noenter cfg r ty v d _ _)]
+      rfl
+    · exact (callHandler_Fr I cfg rec hrec r ty v root obs d false _).ex _ (hex ho)
+
+end struct
+section struct2
+variable {R : Type} (I : RegImpl R) (cfg : Config) (rec : Frame → St R → Action → St R)
+
+theorem loop_sound (hrec : RecOK I rec) (ty v root obs d : Nat) (l : List Reg) (s : St R) (claimed : List Reg) :
+    ∃ tl pl, (l.foldl (deliver cfg rec ty v root obs d) (s, claimed)).1.c.trace = s.c.trace ++ tl ∧
+      (l.foldl (deliver cfg rec ty v root obs d) (s, claimed)).1.c.pending = s.c.pending ++ pl ∧
+      tl.filter (isHookAt d) = [] ∧
+      List.Sublist ((directEnters d tl).map (·.1)) ((l.filter (fun r => !r.async)).map (·.rid)) ∧
+      (∀ x ∈ directEnters d tl, x.2.1 = ty ∧ x.2.2.1 = v) ∧
+      List.Sublist ((pl.filter (fun q => q.depth == d)).map (·.reg)) (l.filter (fun r => r.async)) ∧
+      (∀ q ∈ pl, q.depth = d → q.ty = ty ∧ q.v = v) := by
+  induction l generalizing s claimed with
+  | nil => exact ⟨[], [], by simp, by simp, rfl, by simp [directEnters], by simp [directEnters], by simp, by simp⟩
+  | cons r l ih =>
+    rw [List.foldl_cons]
+    obtain ⟨tl1, pl1, h1, h2, h3, h4⟩ := deliver_struct I cfg rec hrec ty v root obs d s claimed r
+    generalize deliver cfg rec ty v root obs d (s, claimed) r = out at *
+    obtain ⟨s1, c1⟩ := out
+    obtain ⟨tl2, pl2, g1, g2, g3, g4, g5, g6, g7⟩ := ih s1 c1
+    refine ⟨tl1 ++ tl2, pl1 ++ pl2, by rw [g1, h1, List.append_assoc], by rw [g2, h2, List.append_assoc],
+      by rw [List.filter_append, h3, g3]; rfl, ?_⟩
+    rw [directEnters_append, List.filter_append, List.map_append, List.map_append]
+    rcases h4 with ⟨_, hd, hp⟩ | ⟨_, hy, hd, hp, _⟩ | ⟨_, hy, hd, hp, _⟩
+    · rw [hd, hp]
+      refine ⟨?_, by simpa using g5, ?_, by simpa using g7⟩
+      · exact g4.trans (((List.sublist_cons_self r l).filter _).map _)
+      · exact g6.trans ((List.sublist_cons_self r l).filter _)
+    · rw [hd, hp]
+      refine ⟨?_, by simpa using g5, ?_, ?_⟩
+      · exact g4.trans (((List.sublist_cons_self r l).filter _).map _)
+      · simp only [List.filter_cons, hy, beq_self_eq_true, if_true, List.map_cons, List.map_nil,
+          List.filter_nil, List.cons_append, List.nil_append]
+        exact g6.cons_cons r
+      · intro q hq hqd
+        rcases List.mem_append.1 hq with h | h
+        · simp at h; subst h; exact ⟨rfl, rfl⟩
+        · exact g7 q h hqd
+    · rw [hd]
+      have hpf : pl1.filter (fun q => q.depth == d) = [] := by
+        rw [List.filter_eq_nil_iff]
+        intro q hq hqd
+        have := hp q hq
+        simp at hqd
+        omega
+      rw [hpf]
+      refine ⟨?_, ?_, ?_, ?_⟩
+      · simp only [List.filter_cons, hy, Bool.not_false, if_true, List.map_cons, List.map_nil, List.cons_append,
+          List.nil_append]
+        exact g4.cons_cons _
+      · intro x hx
+        rcases List.mem_append.1 hx with h | h
+        · simp at h; subst h; exact ⟨rfl, rfl⟩
+        · exact g5 x h
+      · exact g6.trans ((List.sublist_cons_self r l).filter _)
+      · intro q hq hqd
+        rcases List.mem_append.1 hq with h | h
+        · have := hp q h; omega
+        · exact g7 q h hqd
+
+end struct2
+section struct3
+variable {R : Type} (I : RegImpl R) (cfg : Config) (rec : Frame → St R → Action → St R)
+
+theorem hookL_filter (b : Bool) (d : Nat) (k : HookKind) (ty v : Nat) :
+    (hookL b d k ty v).filter (isHookAt d) = hookL b d k ty v := by
+  cases b <;> simp [hookL, isHookAt]
+
+theorem tailEvs_hook (d ty v pid : Nat) :
+    (tailEvs cfg d ty v pid).filter (isHookAt d) = hookL cfg.hookAL d .al ty v ++ hookL cfg.hookAC d .ac ty v := by
+  unfold tailEvs
+  rw [List.filter_append, List.filter_append, hookL_filter, hookL_filter]
+  cases cfg.obs <;> simp [isHookAt]
+
+theorem publish_struct (hrec : RecOK I rec) (fr : Frame) (ty v : Nat) (bad : Bool) (sel : CtxSel) (s : St R) :
+    ∃ pre mid post pl,
+      (publish I cfg rec fr ty v bad sel s).c.trace = s.c.trace ++ (pre ++ mid ++ post) ∧
+      (publish I cfg rec fr ty v bad sel s).c.pending = s.c.pending ++ pl ∧
+      pre.filter (isHookAt fr.depth) = hookL cfg.hookBL fr.depth .bl ty v ++ hookL cfg.hookBC fr.depth .bc ty v ∧
+      post.filter (isHookAt fr.depth) = hookL cfg.hookAL fr.depth .al ty v ++ hookL cfg.hookAC fr.depth .ac ty v ∧
+      mid.filter (isHookAt fr.depth) = [] ∧
+      (∀ e ∈ pre, isEnter e = false) ∧ (∀ e ∈ post, isEnter e = false) ∧
+      List.Sublist ((directEnters fr.depth mid).map (·.1))
+        (((I.get s.reg ty).filter (fun r => !r.async)).map (·.rid)) ∧
+      (∀ x ∈ directEnters fr.depth mid, x.2.1 = ty ∧ x.2.2.1 = v) ∧
+      List.Sublist ((pl.filter (fun q => q.depth == fr.depth)).map (·.reg))
+        ((I.get s.reg ty).filter (fun r => r.async)) ∧
+      (∀ q ∈ pl, q.depth = fr.depth → q.ty = ty ∧ q.v = v) := by
+  rw [publish_eq]
+  obtain ⟨a1, _, _, a4, _, _, _, _, o1, pe, a9, a10, a11⟩ := pubS0_spec cfg fr ty v bad sel s
+  obtain ⟨mid, pl, b1, b2, b3, b4, b5, b6, b7⟩ := loop_sound I cfg rec hrec ty v (pubRoot fr sel s)
+    (pubObs cfg fr ty sel s) fr.depth (I.get (pubS0 cfg fr ty v bad sel s).reg ty) (pubS0 cfg fr ty v bad sel s) []
+  generalize List.foldl _ _ _ = out at *
+  obtain ⟨s1, claimed⟩ := out
+  obtain ⟨_, _, _, _, c5, _, c7, _⟩ := pubTail_spec I cfg fr.depth ty v (pubCtx fr sel s).2.2.c.nextObs s1 claimed
+  rw [a1] at b4 b6
+  refine ⟨o1 ++ (hookL cfg.hookBL fr.depth .bl ty v ++ hookL cfg.hookBC fr.depth .bc ty v ++ pe), mid,
+    tailEvs cfg fr.depth ty v (pubCtx fr sel s).2.2.c.nextObs, pl, ?_, ?_, ?_, tailEvs_hook cfg _ _ _ _, b3, ?_,
+    tailEvs_noenter _ _ _ _ _, b4, b5, b6, b7⟩
+  · rw [c7, b1, a9]; simp only [List.append_assoc]
+  · rw [c5, b2, a4]
+  · rw [List.filter_append, List.filter_append, List.filter_append, hookL_filter, hookL_filter,
+      filter_hook_plain a10, filter_hook_plain a11]
+    simp
+  · exact all_append (all_noenter_plain a10) (all_append (all_append
+      (hookL_noenter _ _ _ _ _) (hookL_noenter _ _ _ _ _)) (all_noenter_plain a11))
+
+theorem directEnters_mid {d : Nat} {pre mid post : List Ev} (h1 : ∀ e ∈ pre, isEnter e = false)
+    (h2 : ∀ e ∈ post, isEnter e = false) : directEnters d (pre ++ mid ++ post) = directEnters d mid := by
+  rw [directEnters_append, directEnters_append, directEnters_noenter h1, directEnters_noenter h2]
+  simp
+
+end struct3
+section complete
+variable {R : Type} (I : RegImpl R) (cfg : Config) (rec : Frame → St R → Action → St R)
+
+theorem loop_complete (hrec : RecOK I rec) (ty v obs d : Nat) (l : List Reg) (s : St R) (claimed : List Reg)
+    (hinv : Inv0 s.c) :
+    ∃ tl pl, (l.foldl (deliver cfg rec ty v 0 obs d) (s, claimed)).1.c.trace = s.c.trace ++ tl ∧
+      (l.foldl (deliver cfg rec ty v 0 obs d) (s, claimed)).1.c.pending = s.c.pending ++ pl ∧
+      ∀ r ∈ l, r.accepts v = true →
+        (r.once = false → r.async = false → ∃ ctx, (r.rid, ty, v, ctx) ∈ directEnters d tl) ∧
+        (r.once = false → r.async = true → ∃ q ∈ pl, q.reg = r ∧ q.depth = d ∧ q.v = v) ∧
+        (r.once = true → r.rid ∈ (l.foldl (deliver cfg rec ty v 0 obs d) (s, claimed)).1.c.executed) := by
+  induction l generalizing s claimed with
+  | nil => exact ⟨[], [], by simp, by simp, by simp⟩
+  | cons r l ih =>
+    rw [List.foldl_cons]
+    obtain ⟨tl1, pl1, h1, h2, _, h4⟩ := deliver_struct I cfg rec hrec ty v 0 obs d s claimed r
+    have hF := deliver_Fr0 I cfg rec hrec ty v 0 obs d s claimed r
+    have hlive : s.c.live 0 = true := by
+      have := hinv.1
+      simp [Core.live, this]
+    generalize deliver cfg rec ty v 0 obs d (s, claimed) r = out at *
+    obtain ⟨s1, c1⟩ := out
+    obtain ⟨tl2, pl2, g1, g2, g3⟩ := ih s1 c1 (hF.inv0 hinv)
+    have hL := loop_Fr0 I cfg rec hrec ty v 0 obs d l s1 c1
+    refine ⟨tl1 ++ tl2, pl1 ++ pl2, by rw [g1, h1, List.append_assoc], by rw [g2, h2, List.append_assoc], ?_⟩
+    intro r' hr' ha
+    rcases List.mem_cons.1 hr' with h | h
+    · subst h
+      rcases h4 with ⟨hc, _, _⟩ | ⟨_, hy, _, hp, hex⟩ | ⟨_, hy, hd, _, hex⟩
+      · rcases hc with hc | hc | ⟨ho, he⟩
+        · simp_all
+        · simp_all
+        · refine ⟨fun h => by simp_all, fun h => by simp_all, fun _ => hL.ex _ (hF.ex _ he)⟩
+      · refine ⟨fun _ h => by simp_all, fun _ _ => ⟨⟨r', ty, v, 0, obs, d⟩, by rw [hp]; simp, rfl, rfl, rfl⟩, fun ho => hL.ex _ (hex ho)⟩
+      · refine ⟨fun _ _ => ⟨if r'.ctxAware then some 0 else none, ?_⟩, fun _ h => by simp_all,
+          fun ho => hL.ex _ (hex ho)⟩
+        rw [directEnters_append, hd]
+        simp
+    · obtain ⟨k1, k2, k3⟩ := g3 r' h ha
+      refine ⟨fun a b => ?_, fun a b => ?_, k3⟩
+      · obtain ⟨ctx, hc⟩ := k1 a b
+        exact ⟨ctx, by rw [directEnters_append]; exact List.mem_append_right _ hc⟩
+      · obtain ⟨q, hq, hq'⟩ := k2 a b
+        exact ⟨q, List.mem_append_right _ hq, hq'⟩
+
+end complete
 
 end BF
 
@@ -1269,6 +1474,100 @@ theorem no_panic_escapes {R : Type} (I : RegImpl R) (cfg : Config) (fuel : Nat) 
     | nil => exact fun s h => h
     | cons a as ih => exact fun s h => ih _ (BF.exec_nopanic I cfg fuel {} s a rfl h)
   exact this _ rfl
+
+open BF in
+/-- DELIVERY, soundness: the handlers a publish enters directly are registrations of the
+snapshot taken when it began (so: of the published type, never one subscribed during the
+delivery), each at most once and in subscription order, with the published type and value
+and — for context-aware handlers — the publish context; the async ones it parks likewise -/
+theorem publish_sound {R : Type} (I : RegImpl R) (hI : I.Lawful) (cfg : Config) (n : Nat) (fr : Frame)
+    (ty v : Nat) (bad : Bool) (sel : CtxSel) (s : St R) :
+    let s' := publish I cfg (exec I cfg n) fr ty v bad sel s
+    (∃ l, s'.c.trace = s.c.trace ++ l) ∧ (∃ p, s'.c.pending = s.c.pending ++ p) ∧
+    List.Sublist ((directEnters fr.depth (newTrace s s')).map (·.1))
+      (((I.get s.reg ty).filter (fun r => !r.async)).map (·.rid)) ∧
+    (∀ x ∈ directEnters fr.depth (newTrace s s'), x.2.1 = ty ∧ x.2.2.1 = v) ∧
+    List.Sublist (((newPending s s').filter (fun q => q.depth == fr.depth)).map (·.reg))
+      ((I.get s.reg ty).filter (fun r => r.async)) ∧
+    (∀ q ∈ newPending s s', q.depth = fr.depth → q.ty = ty ∧ q.v = v) := by
+  intro s'
+  have _ := hI
+  obtain ⟨pre, mid, post, pl, h1, h2, _, _, _, h6, h7, h8, h9, h10, h11⟩ :=
+    publish_struct I cfg (exec I cfg n) (exec_Fr I cfg n) fr ty v bad sel s
+  rw [newTrace_eq h1, newPending_eq h2, directEnters_mid h6 h7]
+  exact ⟨⟨_, h1⟩, ⟨_, h2⟩, h8, h9, h10, h11⟩
+
+open BF in
+/-- exactly once: in a well-formed registry the rids entered directly are pairwise distinct -/
+theorem publish_at_most_once {R : Type} (I : RegImpl R) (hI : I.Lawful) (cfg : Config) (n : Nat) (fr : Frame)
+    (ty v : Nat) (bad : Bool) (sel : CtxSel) (s : St R) (hwf : WF I s) :
+    let s' := publish I cfg (exec I cfg n) fr ty v bad sel s
+    ((directEnters fr.depth (newTrace s s')).map (·.1)).Nodup := by
+  intro s'
+  have h := (publish_sound I hI cfg n fr ty v bad sel s).2.2.1
+  exact (h.trans (List.filter_sublist.map _)).nodup (hwf ty).1
+
+open BF in
+/-- C08 hooks: the events a publish appends are `pre ++ mid ++ post` where `pre` holds the
+before-hooks (each configured one exactly once, legacy first) and ends before the first
+handler, `post` holds the after-hooks, and `mid` (the dispatch loop, where every handler of
+this publish is entered and returns) contains no hook of this publish -/
+theorem publish_hooks {R : Type} (I : RegImpl R) (hI : I.Lawful) (cfg : Config) (n : Nat) (fr : Frame)
+    (ty v : Nat) (bad : Bool) (sel : CtxSel) (s : St R) :
+    let s' := publish I cfg (exec I cfg n) fr ty v bad sel s
+    ∃ pre mid post, newTrace s s' = pre ++ mid ++ post ∧
+      pre.filter (isHookAt fr.depth) =
+        (if cfg.hookBL then [Ev.hook fr.depth .bl ty v] else []) ++ (if cfg.hookBC then [Ev.hook fr.depth .bc ty v] else []) ∧
+      post.filter (isHookAt fr.depth) =
+        (if cfg.hookAL then [Ev.hook fr.depth .al ty v] else []) ++ (if cfg.hookAC then [Ev.hook fr.depth .ac ty v] else []) ∧
+      mid.filter (isHookAt fr.depth) = [] ∧
+      (∀ e ∈ pre, isEnter e = false) ∧ (∀ e ∈ post, isEnter e = false) ∧
+      directEnters fr.depth (newTrace s s') = directEnters fr.depth mid := by
+  intro s'
+  have _ := hI
+  obtain ⟨pre, mid, post, pl, h1, _, h3, h4, h5, h6, h7, _⟩ :=
+    publish_struct I cfg (exec I cfg n) (exec_Fr I cfg n) fr ty v bad sel s
+  refine ⟨pre, mid, post, newTrace_eq h1, h3, h4, h5, h6, h7, ?_⟩
+  rw [newTrace_eq h1, directEnters_mid h6 h7]
+
+open BF in
+/-- DELIVERY, completeness: with a context that cannot be cancelled, every registration of
+the snapshot whose filter accepts the event is invoked (sync) or parked for invocation
+(async) — whatever the other handlers do: unsubscribe it, clear, publish, panic -/
+theorem publish_complete {R : Type} (I : RegImpl R) (hI : I.Lawful) (cfg : Config) (n : Nat) (fr : Frame)
+    (ty v : Nat) (bad : Bool) (s : St R) (h0 : 0 ∉ s.c.cancelled) (hctx : 0 < s.c.nextCtx) :
+    let s' := publish I cfg (exec I cfg n) fr ty v bad .bg s
+    ∀ r ∈ I.get s.reg ty, r.accepts v = true →
+      (r.once = false → r.async = false → ∃ ctx, (r.rid, ty, v, ctx) ∈ directEnters fr.depth (newTrace s s')) ∧
+      (r.once = false → r.async = true → ∃ q ∈ newPending s s', q.reg = r ∧ q.depth = fr.depth ∧ q.v = v) ∧
+      (r.once = true → r.rid ∈ s'.c.executed) := by
+  intro s'
+  have _ := hI
+  have hs' : s' = publish I cfg (exec I cfg n) fr ty v bad .bg s := rfl
+  rw [publish_eq] at hs'
+  obtain ⟨a1, _, _, a4, _, a6, _, a8, o1, pe, a9, _, _⟩ := pubS0_spec cfg fr ty v bad .bg s
+  have hroot := a8 rfl
+  rw [hroot] at hs'
+  obtain ⟨tl, pl, b1, b2, b3⟩ := loop_complete I cfg (exec I cfg n) (exec_Fr I cfg n) ty v
+    (pubObs cfg fr ty .bg s) fr.depth (I.get (pubS0 cfg fr ty v bad .bg s).reg ty)
+    (pubS0 cfg fr ty v bad .bg s) [] (a6 ⟨h0, hctx⟩)
+  generalize List.foldl _ _ _ = out at *
+  obtain ⟨s1, claimed⟩ := out
+  obtain ⟨_, c2, _, _, c5, _, c7, _⟩ := pubTail_spec I cfg fr.depth ty v (pubCtx fr .bg s).2.2.c.nextObs s1 claimed
+  rw [← hs'] at c2 c5 c7
+  have ht : s'.c.trace = s.c.trace ++ ((o1 ++ (hookL cfg.hookBL fr.depth .bl ty v ++
+      hookL cfg.hookBC fr.depth .bc ty v ++ pe)) ++ tl ++ tailEvs cfg fr.depth ty v (pubCtx fr .bg s).2.2.c.nextObs) := by
+    rw [c7, b1, a9]; simp only [List.append_assoc]
+  have hp : s'.c.pending = s.c.pending ++ pl := by rw [c5, b2, a4]
+  rw [newTrace_eq ht, newPending_eq hp, c2]
+  intro r hr ha
+  rw [← a1] at hr
+  obtain ⟨k1, k2, k3⟩ := b3 r hr ha
+  refine ⟨fun x y => ?_, k2, k3⟩
+  obtain ⟨ctx, hc⟩ := k1 x y
+  refine ⟨ctx, ?_⟩
+  rw [directEnters_append, directEnters_append]
+  exact List.mem_append_left _ (List.mem_append_right _ hc)
 
 open BF in
 /-- C04: a registration whose filter rejects the event is not used up by that delivery step -/
@@ -1357,57 +1656,5 @@ theorem once_retired_after_run {R : Type} (I : RegImpl R) (hI : I.Lawful) (cfg :
   intro s t r hr ho he
   have := (BF.run_inv I hI cfg fuel prog _ (BF.wf_init I hI faults)).2.2.1 t r hr ho he
   simp at this
-
-/-- DELIVERY, soundness: the handlers a publish enters directly are registrations of the
-snapshot taken when it began (so: of the published type, never one subscribed during the
-delivery), each at most once and in subscription order, with the published type and value
-and — for context-aware handlers — the publish context; the async ones it parks likewise -/
-theorem publish_sound {R : Type} (I : RegImpl R) (hI : I.Lawful) (cfg : Config) (n : Nat) (fr : Frame)
-    (ty v : Nat) (bad : Bool) (sel : CtxSel) (s : St R) :
-    let s' := publish I cfg (exec I cfg n) fr ty v bad sel s
-    (∃ l, s'.c.trace = s.c.trace ++ l) ∧ (∃ p, s'.c.pending = s.c.pending ++ p) ∧
-    List.Sublist ((directEnters fr.depth (newTrace s s')).map (·.1))
-      (((I.get s.reg ty).filter (fun r => !r.async)).map (·.rid)) ∧
-    (∀ x ∈ directEnters fr.depth (newTrace s s'), x.2.1 = ty ∧ x.2.2.1 = v) ∧
-    List.Sublist (((newPending s s').filter (fun q => q.depth == fr.depth)).map (·.reg))
-      ((I.get s.reg ty).filter (fun r => r.async)) ∧
-    (∀ q ∈ newPending s s', q.depth = fr.depth → q.ty = ty ∧ q.v = v) := by
-  sorry
-
-/-- DELIVERY, completeness: with a context that cannot be cancelled, every registration of
-the snapshot whose filter accepts the event is invoked (sync) or parked for invocation
-(async) — whatever the other handlers do: unsubscribe it, clear, publish, panic -/
-theorem publish_complete {R : Type} (I : RegImpl R) (hI : I.Lawful) (cfg : Config) (n : Nat) (fr : Frame)
-    (ty v : Nat) (bad : Bool) (s : St R) (h0 : 0 ∉ s.c.cancelled) (hctx : 0 < s.c.nextCtx) :
-    let s' := publish I cfg (exec I cfg n) fr ty v bad .bg s
-    ∀ r ∈ I.get s.reg ty, r.accepts v = true →
-      (r.once = false → r.async = false → ∃ ctx, (r.rid, ty, v, ctx) ∈ directEnters fr.depth (newTrace s s')) ∧
-      (r.once = false → r.async = true → ∃ q ∈ newPending s s', q.reg = r ∧ q.depth = fr.depth ∧ q.v = v) ∧
-      (r.once = true → r.rid ∈ s'.c.executed) := by
-  sorry
-
-/-- exactly once: in a well-formed registry the rids entered directly are pairwise distinct -/
-theorem publish_at_most_once {R : Type} (I : RegImpl R) (hI : I.Lawful) (cfg : Config) (n : Nat) (fr : Frame)
-    (ty v : Nat) (bad : Bool) (sel : CtxSel) (s : St R) (hwf : WF I s) :
-    let s' := publish I cfg (exec I cfg n) fr ty v bad sel s
-    ((directEnters fr.depth (newTrace s s')).map (·.1)).Nodup := by
-  sorry
-
-/-- C08 hooks: the events a publish appends are `pre ++ mid ++ post` where `pre` holds the
-before-hooks (each configured one exactly once, legacy first) and ends before the first
-handler, `post` holds the after-hooks, and `mid` (the dispatch loop, where every handler of
-this publish is entered and returns) contains no hook of this publish -/
-theorem publish_hooks {R : Type} (I : RegImpl R) (hI : I.Lawful) (cfg : Config) (n : Nat) (fr : Frame)
-    (ty v : Nat) (bad : Bool) (sel : CtxSel) (s : St R) :
-    let s' := publish I cfg (exec I cfg n) fr ty v bad sel s
-    ∃ pre mid post, newTrace s s' = pre ++ mid ++ post ∧
-      pre.filter (isHookAt fr.depth) =
-        (if cfg.hookBL then [Ev.hook fr.depth .bl ty v] else []) ++ (if cfg.hookBC then [Ev.hook fr.depth .bc ty v] else []) ∧
-      post.filter (isHookAt fr.depth) =
-        (if cfg.hookAL then [Ev.hook fr.depth .al ty v] else []) ++ (if cfg.hookAC then [Ev.hook fr.depth .ac ty v] else []) ∧
-      mid.filter (isHookAt fr.depth) = [] ∧
-      (∀ e ∈ pre, isEnter e = false) ∧ (∀ e ∈ post, isEnter e = false) ∧
-      directEnters fr.depth (newTrace s s') = directEnters fr.depth mid := by
-  sorry
 
 end Ebu.Bus
